@@ -518,6 +518,14 @@ int main(int argc, char** argv)
                 std::cerr << "Error reading " << startdistfile << std::endl;
                 return EXIT_SUCCESS;
             }
+            if (PhaseSpace::nx != ps_bins) {
+                // everything else (padding, maps, output) is set up for GridSize
+                std::cerr << "Grid size of " << startdistfile
+                          << " (" << PhaseSpace::nx << ") "
+                          << "does not match GridSize (" << ps_bins << ")."
+                          << std::endl;
+                return EXIT_SUCCESS;
+            }
         } else
         #endif
         if (isOfFileType(".txt",startdistfile)) {
